@@ -320,7 +320,7 @@ type RunResult struct {
 
 // run executes body under the scheduler following prefix, then default choices.
 func run(prefix []int, maxPts int, body func(), setup func(x *Exec), prune func(uint64, int, int) bool) *Exec {
-	x := &Exec{pruneFn: prune, ctl: make(chan struct{}), prefix: prefix, maxPts: maxPts, objIDs: map[any]int{}, Base: time.Date(2030, 1, 1, 0, 0, 0, 0, time.UTC)}
+	x := &Exec{pruneFn: prune, ctl: make(chan struct{}), prefix: prefix, maxPts: maxPts, objIDs: map[any]int{}, Base: time.Now().Truncate(time.Second)}
 	if cur != nil {
 		panic("vsched: nested execution")
 	}
